@@ -1217,6 +1217,12 @@ pub fn explore_collect(ctx: &Ctx, mode: &str, bounds: &[Bound], fault_full_trunc
 fn replay(ctx: &Ctx, mode: &str) -> ! {
     let rp = ctx.replay.clone().unwrap_or_default();
     let v: Value = serde_json::from_slice(&std::fs::read(&rp).unwrap_or_default()).unwrap_or(Value::Null);
+    if v["detail"]["io_fault"].is_object() {
+        let (runs, vs) = crate::e3::bisync_io_faults(mode, ctx.seed, true);
+        let mut rep = Report::new("model_checking");
+        rep.set("states", runs).set("transitions", runs).set("traces_validated_against_impl", runs).set("samples", json!([v["detail"]]));
+        finish(ctx, rep, vs);
+    }
     if v["detail"]["large_file_size"].is_u64() {
         let (runs, vs) = c06_large_files(true);
         let mut rep = Report::new("model_checking");
@@ -1454,6 +1460,11 @@ pub fn run(ctx: &Ctx, mode: &str) -> ! {
         (_, true) => vec![b(vec!["f"], 5, 2), b(vec!["f"], 3, 3), b(vec!["f", "d/g"], 3, 2), b(vec!["n.t", "n/t"], 3, 2), b(vec!["d", "d/g"], 3, 2), bd(vec!["d/f"], 3, 3)],
     };
     let (mut rep, mut v) = explore(ctx, mode, &bounds, 1);
+    if mode == "C06" || mode == "C02" {
+        let (runs, vs) = crate::e3::bisync_io_faults(mode, ctx.seed, t);
+        rep.set("io_fault_runs", runs);
+        v.extend(vs);
+    }
     if mode == "C06" {
         let (runs, vs) = c06_large_files(t);
         rep.set("large_file_runs", runs);
